@@ -423,3 +423,149 @@ theorem laneResponse_lawful (P : PLawful p enc ok) :
         simp [laneRespStep, laneRespBody, P.prefix_more b hb buf q e2 hq, wfResp, hid0]
       | synced id =>
         simp [encLaneResp, laneSync, laneSyncComplete] at hpq
+
+
+/-! ### store protocol -/
+
+theorem storeInit_lawful (P : PLawful p enc ok) :
+    Lawful (storeInit p) (encStoreInit enc) (okStoreInit ok) (fun _ => True) where
+  wf_init := trivial
+  view_init := rfl
+  enc_ne := by intro m _ h; cases m <;> simp [encStoreInit] at h
+  complete := by
+    intro m hm s buf tail _ hv
+    cases s with
+    | header =>
+      simp only [storeInit, List.nil_append] at hv ⊢
+      subst hv
+      cases m with
+      | command b => simp [storeInitStep, encStoreInit, tagLen, storeInitBody, P.complete b hm tail]
+      | initComplete => simp [storeInitStep, encStoreInit, tagLen, laneCommand, laneInitDone]
+    | body =>
+      simp only [storeInit] at hv ⊢
+      cases m with
+      | command b =>
+        simp [encStoreInit] at hv
+        subst hv
+        simp [storeInitStep, storeInitBody, P.complete b hm tail]
+      | initComplete => simp [encStoreInit, laneCommand, laneInitDone] at hv
+  prefix_more := by
+    intro m hm pre q hpq hq s buf _ hv
+    cases s with
+    | header =>
+      simp only [storeInit, List.nil_append] at hv ⊢
+      subst hv
+      cases buf with
+      | nil => simp [storeInitStep, tagLen]
+      | cons t pre' =>
+        cases m with
+        | command b =>
+          simp [encStoreInit] at hpq
+          obtain ⟨e1, e2⟩ := hpq
+          subst e1
+          simp [storeInitStep, tagLen, storeInitBody, P.prefix_more b hm pre' q e2 hq]
+        | initComplete =>
+          simp [encStoreInit] at hpq
+          exact absurd hpq.2.2 hq
+    | body =>
+      simp only [storeInit] at hv ⊢
+      cases m with
+      | command b =>
+        subst hv
+        simp [encStoreInit] at hpq
+        simp [storeInitStep, storeInitBody, P.prefix_more b hm buf q hpq hq]
+      | initComplete => subst hv; simp [encStoreInit, laneCommand, laneInitDone] at hpq
+
+theorem storeInitialized_lawful : PLawful storeInitialized encStoreInitialized (fun _ => True) where
+  enc_ne := by intro m _ h; simp [encStoreInitialized] at h
+  complete := by intro m _ tail; simp [storeInitialized, encStoreInitialized, tagLen]
+  prefix_more := by
+    intro m _ pre q hpq hq
+    cases pre with
+    | nil => simp [storeInitialized, tagLen]
+    | cons a l => simp [encStoreInitialized] at hpq; exact absurd hpq.2.2 hq
+
+/-- The header guard `remaining() <= TAG_LEN` needs the body encoding to be non-empty (it always is: every
+body codec writes at least a length). -/
+theorem storeResponse_lawful (P : PLawful p enc ok) :
+    Lawful (storeResponse p) (encStoreResp enc) ok (fun _ => True) where
+  wf_init := trivial
+  view_init := rfl
+  enc_ne := by intro m _ h; simp [encStoreResp] at h
+  complete := by
+    intro m hm s buf tail _ hv
+    have hne := P.enc_ne m hm
+    cases s with
+    | header =>
+      simp only [storeResponse, List.nil_append] at hv ⊢
+      subst hv
+      have hl : 0 < (enc m).length := List.length_pos_iff.mpr hne
+      have : ¬ ((enc m).length + tail.length + 1 ≤ 1) := by omega
+      simp [storeRespStep, encStoreResp, tagLen, storeRespBody, P.complete m hm tail, this]
+    | body =>
+      simp only [storeResponse] at hv ⊢
+      simp [encStoreResp] at hv
+      subst hv
+      simp [storeRespStep, storeRespBody, P.complete m hm tail]
+  prefix_more := by
+    intro m hm pre q hpq hq s buf _ hv
+    cases s with
+    | header =>
+      simp only [storeResponse, List.nil_append] at hv ⊢
+      subst hv
+      cases buf with
+      | nil => simp [storeRespStep, tagLen]
+      | cons t pre' =>
+        simp [encStoreResp] at hpq
+        obtain ⟨e1, e2⟩ := hpq
+        subst e1
+        cases pre' with
+        | nil => simp [storeRespStep, tagLen]
+        | cons a l =>
+          simp [storeRespStep, tagLen, storeRespBody, P.prefix_more m hm (a :: l) q e2 hq]
+    | body =>
+      simp only [storeResponse] at hv ⊢
+      subst hv
+      simp [encStoreResp] at hpq
+      simp [storeRespStep, storeRespBody, P.prefix_more m hm buf q hpq hq]
+
+/-! ### DownlinkOperationDecoder -/
+
+def okDlBody (b : Bytes) : Prop := b.length + 8 < ALLOC_LIMIT
+theorem dl_enc_ne :  ∀ m, okDlBody m → encWlb m ≠ [] := by intro m _ h; simp [encWlb] at h; exact be8_ne _ h.1
+theorem dl_complete : ∀ m, okDlBody m → ∀ tail, downlinkOp (encWlb m ++ tail) = (tail, .item m) := by
+    intro m hm tail
+    unfold okDlBody at hm
+    have h8 : rd (be 8 m.length) = m.length := rd_be8 (by omega)
+    simp [downlinkOp, encWlb, lenSize, h8]
+    ifs
+theorem reserveOut_ok {n : Nat} (h : n < ALLOC_LIMIT) : reserveOut n = .ok := by
+  unfold reserveOut
+  have h1 : ¬ (ISIZE_MAX1 ≤ n) := by omega
+  have h2 : ¬ (ALLOC_LIMIT ≤ n) := by omega
+  simp only [h1, h2, if_false]
+theorem afterReserve_ok {α : Type} {n : Nat} (buf : Bytes) (h : n < ALLOC_LIMIT) :
+    afterReserve (α := α) n buf = (buf, .more) := by
+  simp only [afterReserve, reserveOut_ok h]
+theorem dl_prefix : ∀ m, okDlBody m → ∀ pre q, pre ++ q = encWlb m → q ≠ [] → downlinkOp pre = (pre, .more) := by
+    intro m hm pre q hpq hq
+    unfold okDlBody at hm
+    have hr : afterReserve (α := Bytes) (8 + m.length) pre = (pre, .more) := afterReserve_ok pre (by omega)
+    have h8 : rd (be 8 m.length) = m.length := rd_be8 (by omega)
+    have hql : 0 < q.length := List.length_pos_iff.mpr hq
+    have hlen := congrArg List.length hpq
+    simp [encWlb] at hlen
+    by_cases h : pre.length < 8
+    · have : ¬ (8 ≤ pre.length) := by omega
+      simp [downlinkOp, lenSize, this]
+    · obtain ⟨p', h1, h2⟩ := split_of_le (a := be 8 m.length) (b := m) hpq (by simp; omega)
+      subst h1
+      have hl2 := congrArg List.length h2
+      simp at hl2
+      simp only [downlinkOp, lenSize, take_be8, drop_be8, h8, hr, List.length_append, be_length]
+      ifs
+
+theorem downlinkOp_lawful : PLawful downlinkOp encWlb okDlBody where
+  enc_ne := dl_enc_ne
+  complete := dl_complete
+  prefix_more := dl_prefix
